@@ -52,7 +52,12 @@ def build_config(scn):
             suite['build'] = ['sbuild %d' % r['sbuild']]
         suites['S%d%s' % (i, nsfx)] = suite
         per_exe.setdefault(r['exe'], []).append('S%d%s' % (i, nsfx))
-        e = {'path': '.', 'executable': 'x%d' % r['exe']}
+        # `exe` identifies the resolved executable (path/executable); executors may share the file name
+        # (`file`) while living in different directories
+        if r.get('file') is not None:
+            e = {'path': 'dir%d' % r['exe'], 'executable': 'x%d' % r['file']}
+        else:
+            e = {'path': '.', 'executable': 'x%d' % r['exe']}
         if deco.get('env'):
             e['env'] = dict(deco['env'])
         if r.get('ebuild') is not None:
@@ -74,6 +79,8 @@ def _bench_details(r):
         d['warmup'] = r['warmup']
     if r.get('ignore_timeouts'):
         d['ignore_timeouts'] = True
+    if r.get('maxtime') is not None:
+        d['max_invocation_time'] = r['maxtime']
     return d
 
 
